@@ -1,6 +1,6 @@
-CONSTANTS Graphs <- G2All
+CONSTANTS Graphs <- G2Quick
 Source = "edits"
-WalkLen = 11
+WalkLen = 10
 NEdits = 1
 MaxLen = 0
 Heaps <- H0
